@@ -45,6 +45,19 @@ func (e *Enc) callCommon(fr *Frame, st *State, cc *ssa.CallCommon, fnv *Val, arg
 		return e.encBuiltin(fr, st, b, cc, args, rt, pos, hint)
 	}
 	// call-site assertions of the function under contract ("at call F@n assert ...")
+	fr.siteInvs, fr.siteKey = nil, ""
+	if fr.top && fr.contract != nil && len(fr.contract.CallInvariants) > 0 {
+		if fr.ranks == nil {
+			fr.ranks = computeRanks(fr.fn)
+		}
+		if r, ok := fr.ranks["call:"+fr.curCallClass][pos]; ok {
+			key := fmt.Sprintf("call:%s@%d", fr.curCallClass, r)
+			fr.siteInvs, fr.siteKey = fr.contract.CallInvariants[key], key
+			if len(fr.siteInvs) > 0 && e.dry == 0 {
+				fr.contract.callAssertSeen(key)
+			}
+		}
+	}
 	if fr.top && fr.contract != nil && len(fr.contract.CallAsserts) > 0 && e.dry == 0 {
 		if fr.ranks == nil {
 			fr.ranks = computeRanks(fr.fn)
@@ -769,6 +782,19 @@ func (e *Enc) havocEffects(fr *Frame, st *State, menv *Env, arg Expr, c *Contrac
 		return
 	}
 	fn := v.Clos.Fn
+	invs, siteKey := fr.siteInvs, fr.siteKey
+	// call-site invariant: holds before the call
+	for i, inv := range invs {
+		if e.dry > 0 {
+			break
+		}
+		g, err := e.envFor(fr, st).evalBool(inv.E)
+		if err != nil {
+			e.unsupportedf("%s invariant %s: %v", siteKey, inv.Src, err)
+			continue
+		}
+		e.addObl(&Obligation{Name: siteKey + ":invariant.establish:" + clauseName(inv, i), Kind: "invariant-establish", Label: inv.Label, Clause: "at " + siteKey + ": " + inv.Src, Reach: st.reach, Goal: g})
+	}
 	d := e.beginDry(fr)
 	{
 		hst := st.clone()
@@ -806,6 +832,44 @@ func (e *Enc) havocEffects(fr *Frame, st *State, menv *Env, arg Expr, c *Contrac
 			} else if nonLocal[k] {
 				e.noteNonLocal(k)
 			}
+		}
+	}
+	if len(invs) == 0 {
+		return
+	}
+	// the havocked state is an arbitrary state reachable by running the function value some number of times: assume the
+	// invariant there, show that one more run preserves it (this run is a real encoding: the obligations inside the
+	// function value's body are generated under the invariant), then continue from the havocked state
+	for _, inv := range invs {
+		if g, err := e.envFor(fr, st).evalBool(inv.E); err == nil {
+			e.assume(st, g)
+		}
+	}
+	if e.dry > 0 {
+		return
+	}
+	run := st.clone()
+	var args []*Val
+	for _, p := range fn.Params {
+		args = append(args, e.freshVal(run, "fxi!"+p.Name(), p.Type()))
+	}
+	var rt types.Type
+	switch fn.Signature.Results().Len() {
+	case 0:
+	case 1:
+		rt = fn.Signature.Results().At(0).Type()
+	default:
+		rt = fn.Signature.Results()
+	}
+	e.inline(fr, run, fn, v.Clos.Bind, args, rt, "fxi", fn.Pos())
+	if run.reach != "false" {
+		for i, inv := range invs {
+			g, err := e.envFor(fr, run).evalBool(inv.E)
+			if err != nil {
+				e.unsupportedf("%s invariant %s: %v", siteKey, inv.Src, err)
+				continue
+			}
+			e.addObl(&Obligation{Name: siteKey + ":invariant.preserve:" + clauseName(inv, i), Kind: "invariant-preserve", Label: inv.Label, Clause: "at " + siteKey + " (one run of the function value): " + inv.Src, Reach: run.reach, Goal: g})
 		}
 	}
 }
